@@ -47,10 +47,12 @@ Mk(bs) == [i \in 1..Len(bs) |-> [id |-> i, x0 |-> bs[i][1], x1 |-> bs[i][2], y0 
 ModelOrder == IF Tr.sorter = "smart" THEN Ids(SmartOrder(Mk(Tr.boxes))) ELSE Ids(NaiveOrder(Mk(Tr.boxes)))
 ObservedOrder == [j \in 1..Len(Tr.out) |-> CHOOSE i \in 1..Len(Tr.inp) : Tr.inp[i].id = Tr.out[j].id]
 
+\* Tr.scale = TRUE: a page of tens of thousands of regions (more than any 15- or 16-bit index can address); the driver compared
+\* the returned page with the input itself and recorded the three answers in Tr.flags (inp / out are empty)
 C1 == Tr.outcome = "ok"
-C2 == IsPermOf(IdSeq(Tr.out), IdSeq(Tr.inp))
-C3 == \A j \in 1..Len(Tr.out) : PayloadIntact(Tr.out[j], InById(Tr.out[j].id))
-C4 == \A j \in 1..Len(Tr.out) : RingEq(Tr.out[j].poly, InById(Tr.out[j].id).poly)
+C2 == IF Tr.scale THEN Tr.flags.perm ELSE IsPermOf(IdSeq(Tr.out), IdSeq(Tr.inp))
+C3 == IF Tr.scale THEN Tr.flags.payload ELSE \A j \in 1..Len(Tr.out) : PayloadIntact(Tr.out[j], InById(Tr.out[j].id))
+C4 == IF Tr.scale THEN Tr.flags.polys ELSE \A j \in 1..Len(Tr.out) : RingEq(Tr.out[j].poly, InById(Tr.out[j].id).poly)
 C5 == (Detailed /\ Tr.lattice /\ ~Tr.deskew) => ObservedOrder = ModelOrder
 
 Passed == IF ~C1 THEN 0 ELSE IF ~C2 THEN 1 ELSE IF ~C3 THEN 2 ELSE IF ~C4 THEN 3 ELSE IF ~C5 THEN 4 ELSE 5
